@@ -237,7 +237,10 @@ def chk_case(inp, c):
                 c.inconclusive("L1 request at the edge of feasibility")
         c.fail(f"ReceptorEstimator.minimize_variance raised {type(exc).__name__}: {str(exc)[:120]}",
                mechanism=f"raise:{type(exc).__name__}:feasible-request:" +
-               ("with-out-of-gamut-row" if "out" in inp["classes"] else "all-in-gamut"),
+               ("with-out-of-gamut-row" if "out" in inp["classes"] else "all-in-gamut") +
+               # a numerical solver failure with default settings is repaired in the repository (SCS fall-back): only a
+               # failure of a solver the caller chose is a listed finding
+               (":explicit-solver" if (type(exc).__name__ == "SolverError" and inp["solver"] != "default") else ""),
                l1=inp["l1kind"], solver=inp["solver"])
     if not c.require(isinstance(out, tuple) and len(out) == 3, "returns (X, B_pred, B_var)", mechanism="return-type"):
         return
